@@ -101,7 +101,10 @@ type Once struct {
 
 func (o *Once) Do(f func()) {
 	if !verifsched.Active() {
+		// sequential phases of the harness (one goroutine): keep the modelled state in step with the real one,
+		// so that an initialisation done here is not repeated under exploration
 		o.real.Do(f)
+		o.done = true
 		return
 	}
 	verifsched.Point(-2, true)
